@@ -261,6 +261,15 @@ def run(repo: Repo, chk: Check) -> None:
         chk.ob('R-GUARD', fv.qualname, ok and len(rej) == len(want), f'{prim}: accepts exactly 0 <= v{" < 2^63" if prim == "mutez" else ""}', fv.loc,
                {'accepting': [p.cond_repr() for p in acc], 'rejecting': [(p.value.cls, p.cond_repr()) for p in rej]},
                what=f'{prim} values are not bounded by their constructor as specified')
+    # ... and the UNBOUNDED numeric types accept every integer: int and timestamp (seconds before the epoch are legal; ADD / SUB on timestamps never fail)
+    for prim in ('int', 'timestamp'):
+        cq = TYPECLS[prim]
+        fv = repo.find_method(cq, 'from_value')
+        res = Interp(repo, _CtorHooks(), max_depth=1).run_function(fv, [Sym('value', 'int')], self_val=ClassRef(cq))
+        rej = [p for p in res if p.outcome != 'return']
+        chk.ob('R-GUARD', fv.qualname, bool(res) and not rej, f'{prim}: every integer is accepted by the constructor', fv.loc,
+               {'rejecting': [(p.value.cls if p.outcome == 'raise' else p.outcome, p.cond_repr()) for p in rej]},
+               what=f'{prim}.from_value rejects some integers ({[(p.cond_repr()) for p in rej][:2]}): arithmetic whose exact result lies there fails although Michelson defines it')
     # direct construction of bounded numeric values in the instruction package bypasses the guard
     for fi in repo.iter_functions(I + '.'):
         for c in [n for n in ast.walk(fi.node) if isinstance(n, ast.Call)]:
